@@ -38,19 +38,8 @@ class Timeout(Exception):
 	pass
 
 
-def _alarm(signum, frame):
-	raise Timeout()
-
-
-@contextlib.contextmanager
 def watchdog(seconds: float):
-	old = signal.signal(signal.SIGALRM, _alarm)
-	signal.setitimer(signal.ITIMER_REAL, seconds)
-	try:
-		yield
-	finally:
-		signal.setitimer(signal.ITIMER_REAL, 0)
-		signal.signal(signal.SIGALRM, old)
+	return core.watchdog(seconds, Timeout)
 
 
 def mutate(rnd, src: str) -> tuple[str, str]:
